@@ -27,6 +27,7 @@ import (
 	"log/slog"
 	"math/rand"
 	"os"
+	"os/signal"
 	"path/filepath"
 	"sort"
 	"strings"
@@ -907,14 +908,17 @@ func monDotKey() {
 func marker(s string) { syscall.Write(2, []byte("C13MARK "+s+"\n")) }
 
 type sop struct {
-	kind string // up | fetch | discard
-	key  string
-	d    dataSpec
-	imm  bool
+	kind  string // up | fetch | discard
+	key   string
+	d     dataSpec
+	imm   bool
+	fault bool  // up only: RLIMIT_FSIZE = limit while the Upload runs (line `upf`)
+	limit int64
 }
 
 func scripts(name string) (mk bool, ops []sop) {
-	u := func(k string, d dataSpec, imm bool) sop { return sop{"up", k, d, imm} }
+	u := func(k string, d dataSpec, imm bool) sop { return sop{"up", k, d, imm, false, 0} }
+	uf := func(k string, d dataSpec, imm bool, limit int64) sop { return sop{"up", k, d, imm, true, limit} }
 	switch name {
 	case "basic":
 		return true, []sop{
@@ -926,14 +930,14 @@ func scripts(name string) (mk bool, ops []sop) {
 			u("tile/8/0/x001/018", lit(nil), true),
 			u("tile/8/0/x001/018", lit(nil), true),
 			u("tile/8/0/x001/018", lit([]byte{1}), true),
-			{"fetch", "checkpoint", dataSpec{}, false},
+			{kind: "fetch", key: "checkpoint"},
 		}
 	case "nodir":
 		return false, []sop{
 			u("issuer/abc", lit([]byte("certificate")), true),
 			u("checkpoint", lit(nil), false),
 			u("issuer/abc", gen(40000, 1), true),
-			{"discard", "checkpoint", dataSpec{}, false},
+			{kind: "discard", key: "checkpoint"},
 		}
 	case "big":
 		return true, []sop{
@@ -945,12 +949,31 @@ func scripts(name string) (mk bool, ops []sop) {
 			u("d/e", lit([]byte("1")), false),
 			u("d", lit([]byte("over a directory")), false),
 		}
+	case "wfault":
+		// write(2) on the temporary file fails partway (EFBIG): the trace must be the one of
+		// FS/Fault.v (no fsync of the file, no rename, the temporary file unlinked, no fsync of
+		// the directory), and at every crash point the key holds what it held before
+		return true, []sop{
+			u("checkpoint", lit([]byte("v1")), false),
+			uf("checkpoint", gen(200000, 5), false, 65536),
+			uf("tile/data/x001/000", gen(200000, 6), true, 65536),
+			uf("tile/data/x001/000", gen(200000, 6), true, 0),
+			u("tile/data/x001/000", gen(200000, 6), true),
+			uf("checkpoint", lit([]byte("version two")), false, 4),
+			uf("checkpoint", lit([]byte("version 2")), false, 9), // the limit is not reached
+			{kind: "fetch", key: "checkpoint"},
+		}
 	}
 	return true, nil
 }
 
 func helper(root string, script string) {
 	mk, ops := scripts(script)
+	for _, o := range ops {
+		if o.fault {
+			signal.Ignore(syscall.SIGXFSZ)
+		}
+	}
 	e := &env{root: root, dir: filepath.Join(root, "store"), ctx: context.Background()}
 	if mk {
 		os.Mkdir(e.dir, 0755)
@@ -975,7 +998,13 @@ func helper(root string, script string) {
 			if o.imm {
 				op = &ctlog.UploadOptions{Immutable: true}
 			}
-			err = e.b.Upload(e.ctx, o.key, o.d.b, op)
+			if o.fault {
+				if lerr := withFsize(o.limit, func() { err = e.b.Upload(e.ctx, o.key, o.d.b, op) }); lerr != nil {
+					panic(lerr)
+				}
+			} else {
+				err = e.b.Upload(e.ctx, o.key, o.d.b, op)
+			}
 		case "fetch":
 			_, err = e.b.Fetch(e.ctx, o.key)
 		case "discard":
@@ -985,7 +1014,11 @@ func helper(root string, script string) {
 		marker(fmt.Sprintf("end %d", i))
 		switch o.kind {
 		case "up":
-			emit("up", hx([]byte(o.key))+"|"+o.d.spec+"|"+b2i(o.imm), class(err)+"|"+e.tree())
+			if o.fault {
+				emit("upf", hx([]byte(o.key))+"|"+o.d.spec+"|"+b2i(o.imm)+"|"+fmt.Sprint(o.limit), wclass(err)+"|"+e.tree())
+			} else {
+				emit("up", hx([]byte(o.key))+"|"+o.d.spec+"|"+b2i(o.imm), class(err)+"|"+e.tree())
+			}
 		case "fetch":
 			emit("fetch", hx([]byte(o.key)), class(err))
 		case "discard":
